@@ -5,9 +5,10 @@ from .common import *   # noqa: F401,F403
 from . import instr_gen as ig
 from . import C19 as c19
 
+LEAF = ['Leaf_chart', 'Leaf_fromfile', 'Leaf_dispatch', 'Leaf_tracks', 'Leaf_bpm', 'Leaf_sustain']      # translated functions this property's model relies on (Tie/<name>.v)
 RULE = ("texts obtained from well-formed charts (all section kinds, several tracks, long charts whose events lie beyond 24 h) by 1-4 mutations: line deletion, duplication, swap of neighbouring "
         "lines, single-character edits, brace / bracket damage ('{ ' with trailing blank, deleted '{', duplicated header, blank or comment line after a header), digit-run edits within 8 digits; "
-        "and texts assembled from arbitrary fragments of all section kinds; numeric tokens of at most 8 digits. Observed: the exception class escaping Chart.from_file (compared exactly with the "
+        "and texts assembled from arbitrary fragments of all section kinds; numeric tokens of at most 8 digits (a time-signature EXPONENT is kept below 1024: 2**n for an 8-digit n can neither be rendered nor evaluated in reasonable time). Observed: the exception class escaping Chart.from_file (compared exactly with the "
         "model's error kind, so a different documented error is also a disagreement) and, for every returned chart, str() and repr() of the chart, of every track and of every event. "
         "Judged: Ok with everything rendered, or ValueError / RegexNotMatchError / MissingRequiredField. Non-trivial: every mutated or assembled text; distinct by text")
 ASSUMPTIONS = ["that str()/repr() succeed whenever the formatters' preconditions hold (timestamps within the timedelta range, finite floats: theorem C18_render) is CPython behaviour exercised, not proved, by rendering everything on every run",
@@ -35,7 +36,8 @@ def render_all(ch):
         return False, "%s: %s" % (type(e).__name__, e)
 
 
-def make_case(text, tag):
+def make_case(text0, tag):
+    text = sanitize(text0)
     ch, exc, out = parse_case(text)
     ok, why = (True, None) if ch is None else render_all(ch)
     return dict(case=dict(text=text), in_term="(%s, %s)" % (coq_bool(ok), parse_in_term(text)), out_term=out, nontrivial=tag != "base",
@@ -137,6 +139,13 @@ def assemble(rng):
         rng.shuffle(secs)
         return "\n".join(secs) + "\n"
     return "\n".join(rng.choice(FRAGS) for _ in range(rng.randint(1, 25))) + "\n"
+
+
+def sanitize(text):
+    """A time-signature exponent is kept below 1024: 2**99999999 is computed happily by the parser but can neither be
+    rendered as a decimal term nor evaluated by the model in reasonable time (a limit of this harness, said in the RULE)."""
+    import re
+    return re.sub(r"(= TS \d+ )(\d{4,})", lambda m: m.group(1) + str(int(m.group(2)) % 1024), text)
 
 
 def cases(ctx, n):
